@@ -64,6 +64,7 @@ DistOpts ==
   IN    {D(k, "", "NA", 0, 0) : k \in {"sample", "count", "tag", "zzz"}}
    \cup {D("sample", d, "NA", 0, 0) : d \in {"count", "tag"}}
    \cup {D("sample", "", "XX", 0, 0), D("tag", "n", "XX", 0, 0), D("count", "sample", "none", 0, 0)}
+   \cup {D("well", "plate", "NA", 0, 0), D("plate", "well", "NA", 0, 0), D("well", "plate", "A", 0, 0)}
    \cup {D("", "", "NA", n, 0) : n \in {1, 2, 3, 5, 12, 13}}
    \cup {D("", "", "NA", 0, h) : h \in {1, 2, 3, 7}}
 
